@@ -13,7 +13,7 @@ META = {
                    'volgende goes to the back-edge target, the skip-jump of a function literal lands right after the body; plus '
                    'the CSA height/frame obligations on these arms (O3 merge heights, O6 innermost-loop/same-function binding, '
                    'antwoord only inside functions, O2 no residue).'
-                   ' The primitives that write a jump operand store the two bytes of a 16-bit value (checked narrowing to u16).',
+                   ' The primitives that write a jump operand store the two bytes of a 16-bit value (checked narrowing to u16). R11.7 the peephole primitives that give a block its value look at the last instruction emitted, not the last byte. R11.8 a failed compilation leaves no loop context and no peephole record behind.',
     'not_decided': ['which branch runs for which run-time value; iteration counts'],
 }
 COMPILER = 'compiler::Compiler'
